@@ -399,3 +399,17 @@ def check_backends(F, C):
                 params = [p.get("name") for p in f["params"]]
                 ok = names == params
             C.ob(RP + "/backend-delegates", k, ok, "the trait method must delegate to the inherent %s with its own arguments in order" % target, f["sp"])
+            if m == "get":
+                # the adapter must hand back exactly what the inherent get returns (present, absent, present-but-empty)
+                for stub, what in ((some(symstr.atom("stored", "raw")), "a stored value"), (none(), "no field"), (some(symstr.lit("")), "an empty value")):
+                    class Stub(roundtrip.RTMod):
+                        def intrinsic(self, I, callee, args, st, n, stub=stub, target=target):
+                            if callee == target:
+                                return [(OK, stub, st)]
+                            return super().intrinsic(I, callee, args, st, n)
+                    I = hirai.Interp(F, Stub(F))
+                    st = hirai.State(depth=1).setroot(("T", "p"), ("abs", "backend-paragraph"))
+                    res = I.inline(f, [("ref", (("T", "p"),)), symstr.lit("Key")], st)
+                    got = [(ctl, normalize(I.deref_val(s2, v))) for ctl, v, s2 in res]
+                    C.ob(RP + "/backend-transparent", "%s with %s" % (k, what), got == [(OK, normalize(stub))],
+                         "the adapter returns %s where the back-end's own get returns %s" % ([show_value(g[1])[:80] for g in got], show_value(stub)), f["sp"])
